@@ -272,6 +272,10 @@ def rules(ctx):
     ctx.rule('R11.8', "kernels assign only +-1 / sign flips / the supplied state to the state; spin flag literal True", floor=6)
     ctx.rule('R11.9', "the C energy functions visit every term: no continue/break/goto, the accumulation of every "
                       "spin / term is unconditional", floor=5)
+    ctx.rule('R11.11', "every C buffer is fully written before it is read (the state rows the kernels start from and "
+                       "return): block copies carry sizeof of the element", floor=12)
+    from .C17 import buffers_initialised
+    buffers_initialised(ctx, 'R11.11')
     C = ctx.cprog
     pk = P.func('_anneal._package_spin_results') if P.has_func('_anneal._package_spin_results') else None
 
